@@ -17,3 +17,6 @@ def rules(ctx):
     S.c01_r9_clean_close(ctx)
     S.c05_r6_drop(ctx)
     S.c08_r8_flush_keeps_page(ctx)
+    S.c01_r1_commit_protocol(ctx)
+    S.c01_r2_grow(ctx)
+    S.c01_r8_open_recovery(ctx)
